@@ -43,6 +43,8 @@ def run(F, chk):
     comparators.check(F, O1, where=lambda b: any(re.search(r'Lifecycle\b', t) for t in b.arg_types()), floor=2)
     P6 = chk.rule('P6', 'the published table is written only through update (replace the single value), empty (remove the key), purge and refresh: every key readers see holds exactly one value')
     check_table_api(F, P6)
+    O3 = chk.rule('O3', 'the listing order is computed by following the resume links transitively (a loop/recursion that reads `.resume_lc` and looks the resumed lifecycle up)')
+    check_listing_chain(F, O3)
 
 
 def is_self_field(e, name):
@@ -537,3 +539,125 @@ def check_table_api(F, P6):
                 P6.violation(('table-api', b.closure_of or b.path, what), '%s calls WriteHandle::%s on the published lifecycle table at %s: %s' %
                              (b.path, what, b.loc(blk.term.sp), TABLE_WRITE_BAD.get(what, 'not a reviewed table operation')), where=b.loc(blk.term.sp))
     P6.floor('calls on the table write handle', n, 7)
+
+
+# ---------------------------------------------------------------------------------------------
+# O3: the listing key follows the resume chain
+
+LOOKUP = re.compile(r'(HashMap::<.*>::get|BTreeMap::<.*>::get|Iterator::find|Iterator::position|ops::Index::index|slice::<impl \[T\]>::binary_search\w*|MapReadRef::<.*>::get_one|ReadHandle::<.*>::get_one)$')
+
+
+def _feats(F, body, blocks=None, depth=0, seen=None):
+    """(reads `.resume_lc`, looks another lifecycle up) within the given blocks of body, closures passed there included"""
+    seen = seen if seen is not None else set()
+    reads = looks = False
+    for blk in body.blocks:
+        if blk.cleanup or (blocks is not None and blk.i not in blocks):
+            continue
+        places = []
+        for s in blk.stmts:
+            if s.k == 'assign':
+                places += [o.place for o in s.rv_operands() if o.place is not None]
+                if s.rv_place() is not None:
+                    places.append(s.rv_place())
+        if blk.term.k == 'call':
+            places += [a.place for a in blk.term.args if a.place is not None]
+            p = blk.term.callee.path
+            if LOOKUP.search(p):
+                looks = True
+            for a in blk.term.args:
+                if '{closure@' in (a.ty or '') and depth < 4:
+                    cl = comparators.closure_path_of(F, body, a)
+                    if cl is not None and cl.path not in seen:
+                        seen.add(cl.path)
+                        r2, l2 = _feats(F, cl, None, depth + 1, seen)
+                        reads |= r2
+                        looks |= l2
+            tgt = F.get(p)
+            if tgt is not None and tgt.path.startswith('adlt::lifecycle::') and depth < 3 and tgt.path not in seen:
+                seen.add(tgt.path)
+                r2, l2 = _feats(F, tgt, None, depth + 1, seen)
+                reads |= r2
+                looks |= l2
+            if blk.term.callee.resolved and depth < 4:
+                cl = F.get(blk.term.callee.resolved)
+                if cl is not None and cl.path not in seen:
+                    seen.add(cl.path)
+                    r2, l2 = _feats(F, cl, None, depth + 1, seen)
+                    reads |= r2
+                    looks |= l2
+        if blk.term.k == 'switch':
+            o = Operand(blk.term.d['d'])
+            if o.place is not None:
+                places.append(o.place)
+        for pl in places:
+            if any(e['k'] == 'f' and e.get('n') == 'resume_lc' for e in pl.p):
+                reads = True
+    return reads, looks
+
+
+def check_listing_chain(F, O3):
+    """"never places a resumed lifecycle before the one it resumes": a lifecycle only records the lifecycle it resumes
+    directly (id and a snapshot of its start), so for chains a <- b <- c the order can only be right if the computation of
+    the listing order follows the resume links transitively: somewhere below get_sorted_lifecycles_as_vec there must be a
+    cycle (loop, or recursion) whose body reads `.resume_lc` and looks the resumed lifecycle up.  Decides this necessary
+    structural condition, not the order itself."""
+    b = F.get('adlt::lifecycle::get_sorted_lifecycles_as_vec')
+    if b is None:
+        O3.violation(('anchor-lost', 'get_sorted_lifecycles_as_vec'), 'listing function not found')
+        return
+    O3.fn(b.path)
+    bodies = [b] + list(F.closures_of(b.path))
+    any_reads, _ = _feats(F, b)
+    for cl in F.closures_of(b.path):
+        r, _l = _feats(F, cl)
+        any_reads |= r
+    O3.sites += len(bodies)
+    if not any_reads:
+        O3.violation(('listing-ignores-resume', b.path), 'the lifecycle listing never consults `.resume_lc`: a resumed lifecycle whose start estimate is earlier is listed before the one it resumes', where=b.loc(None))
+        return
+    # only what the sort call actually uses counts: the closures given to sort_by* / *_by_key and everything they call
+    reach = []
+    seen_r = set()
+    work = []
+    for blk in b.calls():
+        if comparators.SORT_CALLEES.search(blk.term.callee.path) or comparators.KEY_CALLEES.search(blk.term.callee.path):
+            for a in blk.term.args:
+                if '{closure@' in (a.ty or ''):
+                    cl = comparators.closure_path_of(F, b, a)
+                    if cl is not None:
+                        work.append(cl)
+    while work:
+        x = work.pop()
+        if x.path in seen_r:
+            continue
+        seen_r.add(x.path)
+        reach.append(x)
+        for blk in x.calls():
+            for cand in (blk.term.callee.resolved, blk.term.callee.path):
+                t2 = F.get(cand) if cand else None
+                if t2 is not None and (t2.path.startswith('adlt::lifecycle::') or t2.kind == 'closure'):
+                    work.append(t2)
+            for a in blk.term.args:
+                if '{closure@' in (a.ty or ''):
+                    c2 = comparators.closure_path_of(F, x, a)
+                    if c2 is not None:
+                        work.append(c2)
+    O3.floor('closures used by the sort call of the listing', len(reach), 1)
+    found = None
+    for x in reach:
+        cfg = CFG(x)
+        for hd, lb in cfg.loops().items():
+            r, l = _feats(F, x, lb)
+            if r and l:
+                found = (x, hd)
+        # recursion: x calls itself
+        if any(blk.term.callee.path == x.path or blk.term.callee.resolved == x.path for blk in x.calls()):
+            r, l = _feats(F, x)
+            if r and l:
+                found = (x, 'recursion')
+    if found:
+        O3.ok(sample={'listing': b.path, 'resume_chain_followed_in': found[0].path, 'by': 'loop at block %s' % found[1] if found[1] != 'recursion' else 'recursion'})
+    else:
+        O3.violation(('resume-chain-not-followed', b.path), 'the listing order consults `.resume_lc` but nowhere in a loop/recursion that looks the resumed lifecycle up: only the directly resumed lifecycle is taken into account, '
+                     'so in a chain a <- b <- c whose start estimates cross, c can be listed before a', where=b.loc(None))
